@@ -29,7 +29,7 @@ def seeded_table():
         return s if len(s) <= n else s[: n - 1] + "…"
     def key(d):
         b = os.path.basename(d)
-        m = re.match(r"(R2-)?C(\d+)-(\d+)", b)
+        m = re.match(r"(R\d-)?C(\d+)-(\d+)", b)
         return (m.group(1) or "", int(m.group(2)), int(m.group(3))) if m else ("z", 0, 0)
     for d in sorted(glob.glob(os.path.join(ROOT, "seeded", "*")), key=key):
         mp = os.path.join(d, "meta.json")
@@ -62,7 +62,7 @@ def main():
         + mutants_table() + "\n\n" \
         "**Seeded changes written by independent sub-agents** (`seeded/<ID>-<n>/`: `patch.diff`, the author's demonstration, `meta.json`). Each agent got only the text of one " \
         "property and a private worktree; nothing from `/verif`. Every change was confirmed first (`tools/verify_seed.sh`: applies to HEAD, builds, passes the 41 tests, its " \
-        "demonstration fails with it and passes without it) and then run against the checks (`tools/seed_import.py`). `R2-` entries are a second round in which the agents were " \
+        "demonstration fails with it and passes without it) and then run against the checks (`tools/seed_import.py`). `R2-` / `R3-` entries are later rounds in which the agents were " \
         "shown the first round's summaries and asked for different, harder defects.\n\n" \
         + seeded_table() + "\n\n" + tail.replace("{BUDGETS}", budgets_table())
     p = os.path.join(ROOT, "DESIGN.md")
